@@ -234,7 +234,12 @@ func c11Build(s *simcore.Source) c11Scenario {
 %s%s`, urlPath, yamlMap("            ", hkeys, c11HeaderPool), payload, yamlMap("          ", vkeys, c11ValuePool), fwd)
 		var step1, step2 string
 		if sc.kind == "remote-authorizer" {
-			sc.mech = "mechanisms:\n  authenticators:" + c11Authn + "  authorizers:\n    - id: mut\n      type: remote\n      config:\n" + common +
+			protoExpr := ""
+			if s.Draw(3, "proto-expressions") == 2 {
+				protoExpr = "        expressions:\n          - expression: \"Payload.allow == true\"\n"
+				sc.describe = "catalogue-expressions "
+			}
+			sc.mech = "mechanisms:\n  authenticators:" + c11Authn + "  authorizers:\n    - id: mut\n      type: remote\n      config:\n" + common + protoExpr +
 				"        forward_response_headers_to_upstream: [ \"X-Digest\" ]\n  finalizers:" + echo
 			step1 = "    - authenticator: user\n    - authorizer: mut\n    - finalizer: echo"
 			step2 = step1
@@ -264,7 +269,7 @@ func c11Build(s *simcore.Source) c11Scenario {
 			}
 		}
 		sc.rules = fmt.Sprintf(c11RuleTpl, step1, step2)
-		sc.describe = fmt.Sprintf("values=%v headers=%v payload=%s fwd=%v", vkeys, hkeys, payload, fwd != "")
+		sc.describe += fmt.Sprintf("values=%v headers=%v payload=%s fwd=%v", vkeys, hkeys, payload, fwd != "")
 	case "generic-authn":
 		sc.party = "idp"
 		hkeys := drawKeys(s, c11StaticHeaderPool, 1, "headers")
